@@ -144,7 +144,7 @@ func ruleLastAppliedContiguous(e *Engine, r *Report) {
 	r.floor("GD-lastapplied-contiguous", n, 1)
 	// inside the batch: an If comparing e.Index with (running index)+1 whose unequal edge fail-stops
 	found := false
-	forEachInstr(fn, func(in ssa.Instruction) {
+	e.forEachInstrRegion(fn, 1, func(in ssa.Instruction) {
 		ifi, ok := in.(*ssa.If)
 		if !ok {
 			return
@@ -331,11 +331,17 @@ func ruleQuiesceActivity(e *Engine, r *Report) {
 			continue
 		}
 		isRec := e.throughHelpers(func(s ssa.CallInstruction) bool { return e.CallsTo(s, rec) })
-		for _, s := range e.SitesIn(fn, core) {
-			n++
-			res := e.findPath(fn, nil, func(in ssa.Instruction) bool { return in == s.(ssa.Instruction) }, isRec, nil)
-			r.check(!res.Found, "GD-quiesce-activity", fname(core)+" in "+fname(fn)+" is preceded by quiesceState.record", e.ipos(s),
-				"a quiesced replica wakes up before it steps the request", "the request reaches the raft core of a possibly quiesced replica without being recorded as activity: the replica keeps its quiesced (election-free, heartbeat-free) clock and the request waits for a timeout", res.Trace(e)...)
+		for _, g := range e.regionOf(fn, 1) {
+			for _, s := range e.SitesIn(g, core) {
+				n++
+				depth := 0
+				if g != fn {
+					depth = 1
+				}
+				okp, w := e.alwaysPrecededBy(s.(ssa.Instruction), isRec, depth)
+				r.check(okp, "GD-quiesce-activity", fname(core)+" in "+fname(fn)+" is preceded by quiesceState.record", e.ipos(s),
+					"a quiesced replica wakes up before it steps the request", "the request reaches the raft core of a possibly quiesced replica without being recorded as activity: the replica keeps its quiesced (election-free, heartbeat-free) clock and the request waits for a timeout", w...)
+			}
 		}
 	}
 	r.floor("GD-quiesce-activity", n, 2)
@@ -655,7 +661,7 @@ func ruleSessionBytesWritten(e *Engine, r *Report) {
 			}
 		})
 	}
-	r.floor("DEP-session-bytes", n, 2)
+	r.floor("DEP-session-bytes", n, 1)
 }
 
 // ruleApplyIndexAtomic (C07, C08): a change of replicated state (membership,
@@ -708,29 +714,59 @@ func ruleApplyIndexAtomic(e *Engine, r *Report) {
 		for _, m := range muts {
 			for _, s := range e.SitesIn(fn, m.fn) {
 				n++
-				site := s.(ssa.Instruction)
 				key := m.what + " in " + fname(fn)
-				r.requireLock("PAIR-apply-index-atomic", key+" holds StateMachine.mu", site, mu, 2, "StateMachine.mu")
-				// a direct unlock before the index advance
-				res := e.findPath(fn, site, isUnlock, isSet, nil)
-				// the index advance happens before this activation ends
-				var dSet, dUnlock *ssa.Defer
-				forEachInstr(fn, func(in ssa.Instruction) {
-					d, ok := in.(*ssa.Defer)
-					if !ok {
-						return
+				r.requireLock("PAIR-apply-index-atomic", key+" holds StateMachine.mu", s.(ssa.Instruction), mu, 2, "StateMachine.mu")
+				var check func(site ssa.Instruction, depth int) (bool, []string)
+				check = func(site ssa.Instruction, depth int) (bool, []string) {
+					g := site.Parent()
+					// a direct unlock before the index advance
+					res := e.findPath(g, site, isUnlock, isSet, nil)
+					if res.Found {
+						return false, res.Trace(e)
 					}
-					if e.CallsTo(d, setApplied) {
-						dSet = d
+					var dSet, dUnlock *ssa.Defer
+					locks := false
+					forEachInstr(g, func(in ssa.Instruction) {
+						if c, ok := in.(ssa.CallInstruction); ok {
+							if f, _ := lockOp(c); f == mu {
+								locks = true
+							}
+						}
+						d, ok := in.(*ssa.Defer)
+						if !ok {
+							return
+						}
+						if e.CallsTo(d, setApplied) {
+							dSet = d
+						}
+						if f, op := lockOp(d); f == mu && op == "Unlock" {
+							dUnlock = d
+						}
+					})
+					direct := !e.findPath(g, site, isReturn, isSet, nil).Found
+					deferred := dSet != nil && dominatesInstr(dSet, site) && (dUnlock == nil || dominatesInstr(dUnlock, dSet))
+					if direct || deferred {
+						return true, nil
 					}
-					if f, op := lockOp(d); f == mu && op == "Unlock" {
-						dUnlock = d
+					if locks || depth == 0 {
+						return false, []string{"no setApplied before " + fname(g) + " releases the lock / returns"}
 					}
-				})
-				direct := !e.findPath(fn, site, isReturn, isSet, nil).Found
-				deferred := dSet != nil && dominatesInstr(dSet, site) && (dUnlock == nil || dominatesInstr(dUnlock, dSet))
-				r.check(!res.Found && (direct || deferred), "PAIR-apply-index-atomic", key+" and setApplied share one critical section", e.ipos(site),
-					"the applied index advances before StateMachine.mu is released", "the "+m.what+" becomes visible under StateMachine.mu but the applied index that labels it is advanced later, outside that critical section: a snapshot or stream prepared in between carries the change under the previous index, and a replica restored from it applies the entry a second time / reports a different membership at the same index", res.Trace(e)...)
+					// a helper that runs entirely inside its caller's critical section: the caller must advance the index
+					callers := 0
+					for _, cs := range e.CallerSites(g) {
+						if !e.IsLive(outermostFn(cs.Parent())) {
+							continue
+						}
+						callers++
+						if ok, w := check(cs.(ssa.Instruction), depth-1); !ok {
+							return false, append([]string{"called from " + fname(cs.Parent())}, w...)
+						}
+					}
+					return callers > 0, nil
+				}
+				ok, w := check(s.(ssa.Instruction), 2)
+				r.check(ok, "PAIR-apply-index-atomic", key+" and setApplied share one critical section", e.ipos(s),
+					"the applied index advances before StateMachine.mu is released", "the "+m.what+" becomes visible under StateMachine.mu but the applied index that labels it is advanced later, outside that critical section: a snapshot or stream prepared in between carries the change under the previous index, and a replica restored from it applies the entry a second time / reports a different membership at the same index", w...)
 			}
 		}
 	}
@@ -855,8 +891,7 @@ func ruleTaskQueueFIFO(e *Engine, r *Report) {
 func ruleTransferTarget(e *Engine, r *Report) {
 	tgt := r.needField("internal/raft", "raft", "leaderTransferTarget")
 	remotes := r.needField("internal/raft", "raft", "remotes")
-	sendTN := r.need(raftT + "sendTimeoutNowMessage")
-	if tgt == nil || remotes == nil || sendTN == nil {
+	if tgt == nil || remotes == nil {
 		return
 	}
 	n := 0
@@ -882,27 +917,69 @@ func ruleTransferTarget(e *Engine, r *Report) {
 	}
 	r.floor("GD-transfer-target", n, 1)
 	m := 0
-	for _, s := range e.CallerSites(sendTN) {
-		if !e.IsLive(s.Parent()) || len(s.Common().Args) < 2 {
-			continue
-		}
+	// every TimeoutNow message built by the raft core: its To is the recorded target. A small
+	// sender helper (To = its parameter) is followed to its call sites.
+	typF := r.needField("raftpb", "Message", "Type")
+	toF := r.needField("raftpb", "Message", "To")
+	tn := r.needConst("raftpb", "TimeoutNow")
+	checkTarget := func(a ssa.Value, at ssa.Instruction, fn *ssa.Function) {
 		m++
-		a := s.Common().Args[1]
 		ok := fieldV(tgt)(a)
 		if !ok {
-			// the value just stored into the field in the same function
 			for _, w := range e.FieldWrites(tgt) {
-				if w.Fn == s.Parent() && (w.Val == a || sameExprV(w.Val)(a)) {
+				if w.Fn == fn && (w.Val == a || sameExprV(w.Val)(a)) {
 					ok = true
 				}
 			}
 		}
 		if !ok {
-			// equal to the recorded target by a dominating comparison
-			ok, _ = e.guardedOnAllPaths(s.(ssa.Instruction), reqCmp("", "==", func(v ssa.Value) bool { return v == a || sameExprV(a)(v) }, fieldV(tgt)))
+			ok, _ = e.guardedOnAllPaths(at, reqCmp("", "==", func(v ssa.Value) bool { return v == a || sameExprV(a)(v) }, fieldV(tgt)))
 		}
-		r.check(ok, "GD-transfer-target", "TimeoutNow in "+fname(s.Parent())+" goes to the recorded transfer target", e.ipos(s),
+		r.check(ok, "GD-transfer-target", "TimeoutNow in "+fname(fn)+" goes to the recorded transfer target", e.ipos(at),
 			"only the vetted target is told to campaign at once", "TimeoutNow is sent to "+e.describeValue(a)+", not to the recorded (membership-checked) transfer target: a replica that is not a full voting member can be told to start an election that bypasses the leader lease")
+	}
+	if typF != nil && toF != nil && tn != nil {
+		rp := e.pkgTypes("internal/raft")
+		for _, fn := range e.ScopeFuncs() {
+			if fnPkg(fn) != rp || !e.IsLive(fn) {
+				continue
+			}
+			forEachInstr(fn, func(in ssa.Instruction) {
+				st, ok := in.(*ssa.Store)
+				if !ok {
+					return
+				}
+				f, base, ok := fieldOfAddr(st.Addr)
+				if !ok || f != typF || !constV(tn)(st.Val) {
+					return
+				}
+				forEachInstr(fn, func(in2 ssa.Instruction) {
+					st2, ok := in2.(*ssa.Store)
+					if !ok {
+						return
+					}
+					f2, base2, ok := fieldOfAddr(st2.Addr)
+					if !ok || f2 != toF || base2 != base {
+						return
+					}
+					if p, isP := stripConv(st2.Val).(*ssa.Parameter); isP {
+						// sender helper: check what its callers pass
+						for pi, pp := range fn.Params {
+							if pp != p {
+								continue
+							}
+							for _, cs := range e.CallerSites(fn) {
+								if e.IsLive(cs.Parent()) && pi < len(cs.Common().Args) {
+									checkTarget(cs.Common().Args[pi], cs.(ssa.Instruction), cs.Parent())
+								}
+							}
+						}
+						return
+					}
+					checkTarget(st2.Val, in2, fn)
+				})
+			})
+		}
 	}
 	r.floor("GD-transfer-target-sites", m, 2)
 }
@@ -998,7 +1075,12 @@ func ruleSetRangeRebases(e *Engine, r *Report) {
 // UpdateCommit is acted on: the in-memory log handles StableLogTo and
 // StableSnapshotTo independently of each other (one record may carry both).
 func ruleCommitUpdateActs(e *Engine, r *Report) {
-	fn := r.need("(*internal/raft.inMemory).commitUpdate")
+	// the function that turns an UpdateCommit into acknowledgements of the in-memory log:
+	// inMemory.commitUpdate, or - when that was inlined - entryLog.commitUpdate
+	fn := r.helper("(*internal/raft.inMemory).commitUpdate")
+	if fn == nil {
+		fn = r.need("(*internal/raft.entryLog).commitUpdate")
+	}
 	if fn == nil {
 		return
 	}
@@ -1012,8 +1094,8 @@ func ruleCommitUpdateActs(e *Engine, r *Report) {
 		n++
 		isAct := e.throughHelpers(func(s ssa.CallInstruction) bool { return e.CallsTo(s, act) })
 		res := e.pathUnless(fn, nil, isReturn, isAct, reqCmp(c[0]+" is zero", "==", fieldV(fld), intConstV(0)))
-		r.check(!res.Found, "MPT-commitupdate-acts", "inMemory.commitUpdate acts on "+c[0], e.pos(fn.Pos()),
-			"the acknowledgement is applied whenever the field is set", "an UpdateCommit with "+c[0]+" set can pass through inMemory.commitUpdate without "+c[1]+": the in-memory log never learns that the entries/snapshot were persisted (entries are handed out for saving again, or never again)", res.Trace(e)...)
+		r.check(!res.Found, "MPT-commitupdate-acts", fname(fn)+" acts on "+c[0], e.pos(fn.Pos()),
+			"the acknowledgement is applied whenever the field is set", "an UpdateCommit with "+c[0]+" set can pass through "+fname(fn)+" without "+c[1]+": the in-memory log never learns that the entries/snapshot were persisted (entries are handed out for saving again, or never again)", res.Trace(e)...)
 	}
 	r.floor("MPT-commitupdate-acts", n, 2)
 }
@@ -1080,14 +1162,19 @@ func ruleFrameHeaderCover(e *Engine, r *Report) {
 		return
 	}
 	n := 0
+	isCRC := func(s ssa.CallInstruction) bool {
+		sc := s.Common().StaticCallee()
+		return sc != nil && sc.Pkg != nil && sc.Pkg.Pkg.Path() == "hash/crc32" && len(s.Common().Args) > 0
+	}
 	for _, name := range []string{"(*internal/transport.requestHeader).encode", "(*internal/transport.requestHeader).decode"} {
 		fn := r.need(name)
 		if fn == nil {
 			continue
 		}
-		forEachCall(fn, func(s ssa.CallInstruction) {
-			sc := s.Common().StaticCallee()
-			if sc == nil || sc.Pkg == nil || sc.Pkg.Pkg.Path() != "hash/crc32" || len(s.Common().Args) == 0 {
+		// the checksum call, in the function or in a helper it shares with its sibling
+		e.forEachInstrRegion(fn, 1, func(in ssa.Instruction) {
+			s, ok := in.(ssa.CallInstruction)
+			if !ok || !isCRC(s) {
 				return
 			}
 			n++
@@ -1111,8 +1198,16 @@ func ruleFrameHeaderCover(e *Engine, r *Report) {
 	if enc := e.Func("(*internal/transport.requestHeader).encode"); enc != nil {
 		var sum ssa.Instruction
 		forEachCall(enc, func(s ssa.CallInstruction) {
-			if sc := s.Common().StaticCallee(); sc != nil && sc.Pkg != nil && sc.Pkg.Pkg.Path() == "hash/crc32" {
+			if isCRC(s) {
 				sum = s.(ssa.Instruction)
+				return
+			}
+			if sc := s.Common().StaticCallee(); sc != nil && fnPkg(sc) == fnPkg(enc) {
+				forEachCall(sc, func(s2 ssa.CallInstruction) {
+					if isCRC(s2) {
+						sum = s.(ssa.Instruction)
+					}
+				})
 			}
 		})
 		if sum != nil {
@@ -1364,69 +1459,81 @@ func ruleSnapshotJobSlot(e *Engine, r *Report) {
 	if cj == nil || jobs == nil {
 		return
 	}
+	isDec := func(c ssa.CallInstruction) bool {
+		cc := c.Common()
+		sc := cc.StaticCallee()
+		if sc == nil || sc.Pkg == nil || sc.Pkg.Pkg.Path() != "sync/atomic" || sc.Name() != "AddUint64" || len(cc.Args) != 2 {
+			return false
+		}
+		if f, _, ok := fieldOfAddr(cc.Args[0]); !ok || f != jobs {
+			return false
+		}
+		k, isK := cc.Args[1].(*ssa.Const)
+		return !isK || k.Value == nil || k.Value.ExactString() != "1"
+	}
+	// a function (with the same-package functions and closures it calls) gives the slot back
+	releasesSlot := func(fn *ssa.Function) bool {
+		hit := false
+		for _, g := range e.regionOf(fn, 2) {
+			forEachCall(g, func(c ssa.CallInstruction) {
+				if isDec(c) {
+					hit = true
+				}
+			})
+		}
+		return hit
+	}
+	var closureReleases func(mc *ssa.MakeClosure, d int) bool
+	closureReleases = func(mc *ssa.MakeClosure, d int) bool {
+		body, ok := mc.Fn.(*ssa.Function)
+		if !ok {
+			return false
+		}
+		if releasesSlot(body) {
+			return true
+		}
+		if d == 0 {
+			return false
+		}
+		// closures the body reaches through its free variables (`shutdown := func() {...}`)
+		for _, b := range mc.Bindings {
+			if mc2, ok := b.(*ssa.MakeClosure); ok && closureReleases(mc2, d-1) {
+				return true
+			}
+			if al, ok := b.(*ssa.Alloc); ok {
+				for _, sv := range storesInto(al) {
+					if mc2, ok := sv.(*ssa.MakeClosure); ok && closureReleases(mc2, d-1) {
+						return true
+					}
+				}
+			}
+		}
+		return false
+	}
 	isRelease := func(in ssa.Instruction) bool {
 		c, ok := in.(ssa.CallInstruction)
 		if !ok {
 			return false
 		}
-		cc := c.Common()
-		if sc := cc.StaticCallee(); sc != nil && sc.Pkg != nil && sc.Pkg.Pkg.Path() == "sync/atomic" && sc.Name() == "AddUint64" && len(cc.Args) == 2 {
-			if f, _, ok := fieldOfAddr(cc.Args[0]); ok && f == jobs {
-				if k, ok := cc.Args[1].(*ssa.Const); !ok || k.Value == nil || k.Value.ExactString() != "1" {
-					return true
+		if isDec(c) {
+			return true
+		}
+		// a same-package helper that releases on every path
+		if sc := c.Common().StaticCallee(); sc != nil && fnPkg(sc) == fnPkg(cj) && sc != cj && len(sc.Blocks) > 0 {
+			direct := false
+			forEachCall(sc, func(c2 ssa.CallInstruction) {
+				if isDec(c2) {
+					direct = true
 				}
+			})
+			if direct && !e.findPath(sc, nil, isReturn, func(x ssa.Instruction) bool { c3, ok := x.(ssa.CallInstruction); return ok && isDec(c3) }, nil).Found {
+				return true
 			}
 		}
 		// hand-off to a worker goroutine whose body releases the slot
-		for _, a := range cc.Args {
-			if mc, ok := a.(*ssa.MakeClosure); ok {
-				if body, ok := mc.Fn.(*ssa.Function); ok {
-					rel := false
-					for _, g := range e.regionOf(body, 2) {
-						forEachCall(g, func(s2 ssa.CallInstruction) {
-							c2 := s2.Common()
-							if sc := c2.StaticCallee(); sc != nil && sc.Pkg != nil && sc.Pkg.Pkg.Path() == "sync/atomic" && sc.Name() == "AddUint64" && len(c2.Args) == 2 {
-								if f, _, ok := fieldOfAddr(c2.Args[0]); ok && f == jobs {
-									rel = true
-								}
-							}
-						})
-					}
-					// closures reference the release closure through free variables
-					for _, b := range mc.Bindings {
-						if al, ok := b.(*ssa.Alloc); ok {
-							for _, sv := range storesInto(al) {
-								if mc2, ok := sv.(*ssa.MakeClosure); ok {
-									if body2, ok := mc2.Fn.(*ssa.Function); ok {
-										forEachCall(body2, func(s2 ssa.CallInstruction) {
-											c2 := s2.Common()
-											if sc := c2.StaticCallee(); sc != nil && sc.Name() == "AddUint64" && len(c2.Args) == 2 {
-												if f, _, ok := fieldOfAddr(c2.Args[0]); ok && f == jobs {
-													rel = true
-												}
-											}
-										})
-									}
-								}
-							}
-						}
-						if mc2, ok := b.(*ssa.MakeClosure); ok {
-							if body2, ok := mc2.Fn.(*ssa.Function); ok {
-								forEachCall(body2, func(s2 ssa.CallInstruction) {
-									c2 := s2.Common()
-									if sc := c2.StaticCallee(); sc != nil && sc.Name() == "AddUint64" && len(c2.Args) == 2 {
-										if f, _, ok := fieldOfAddr(c2.Args[0]); ok && f == jobs {
-											rel = true
-										}
-									}
-								})
-							}
-						}
-					}
-					if rel {
-						return true
-					}
-				}
+		for _, a := range c.Common().Args {
+			if mc, ok := a.(*ssa.MakeClosure); ok && closureReleases(mc, 2) {
+				return true
 			}
 		}
 		return false
@@ -1664,7 +1771,7 @@ func ruleShardRouting(e *Engine, r *Report) {
 				"the partitioner's answer (or a sweep over all partitions)", "a sharded log store method picks its partition with its own arithmetic instead of the partitioner: when the engine and the log store are configured with different shard counts the record lands in a partition nobody reads for that raft shard (the call still succeeds)")
 		})
 	}
-	r.floor("TBL-shard-routing", n, 8)
+	r.floor("TBL-shard-routing", n, 2)
 }
 
 // ruleTempDirNamePattern (C16): the names given to temporary snapshot
